@@ -1,12 +1,387 @@
 /-
-  Property C15 — PLACEHOLDER while the full theorem file (lean/stmts/C15.lean.txt) is being proved.
+  Property C15 — owner-only upgrades, one migration per upgrade, all-or-nothing Upgrader.
+  Statements are FIXED: prove them exactly as stated (helper lemmas go above them or in Cgp/Proofs/C15.lean).
 -/
 import Cgp.Upgradable
 namespace Cgp.Props.C15
 open Cgp Cgp.Xdr Cgp.Upgradable
 
+/-- code produced by `#[derive(Upgradable)]`: has `migrate`, which requires and closes the window; `upgrade` opens it -/
+def IsDerived (code : Code) : Prop := code.hasMigrate = true ∧ code.usesWindow = true ∧ code.opensWindow = true
+
+/-- every piece of code the contract can ever run is derived code -/
+def AllDerived (codes : Codes) (c : Contract) : Prop := IsDerived c.code ∧ ∀ h code, codes h = some code → IsDerived code
+
+
+theorem upgrade_ok {codes : Codes} {c c' : Contract} {auths : List Addr} {h : Bytes}
+    (hok : upgrade codes c auths h = .ok c') :
+    c.owner ∈ auths ∧ ∃ code, codes h = some code ∧
+      c' = { c with code := code, migrating := c.migrating || c.code.opensWindow } := by
+  unfold upgrade at hok
+  split at hok
+  · cases hok
+  · rename_i hin
+    split at hok
+    · cases hok
+    · rename_i code hc
+      cases hok
+      exact ⟨Classical.not_not.mp hin, code, hc, rfl⟩
+
+theorem migrate_ok {c c' : Contract} {auths : List Addr} {d : List ScVal} {evs : List Event}
+    (hok : migrate c auths d = .ok (c', evs)) :
+    c.code.hasMigrate = true ∧ c.owner ∈ auths ∧
+      ((c.code.usesWindow = true ∧ c.migrating = true ∧ c' = { c with migrating := false } ∧
+          evs = [evUpgraded c.code.version]) ∨
+       (c.code.usesWindow = false ∧ c'.code = c.code ∧ c'.owner = c.owner ∧ c'.migrating = c.migrating ∧ evs = [])) := by
+  unfold migrate at hok
+  split at hok
+  · cases hok
+  · rename_i h1
+    split at hok
+    · cases hok
+    · split at hok
+      · cases hok
+      · rename_i h3
+        refine ⟨by simpa using h1, Classical.not_not.mp h3, ?_⟩
+        split at hok
+        · rename_i h4
+          split at hok
+          · cases hok
+          · rename_i h5
+            cases hok
+            exact Or.inl ⟨h4, by simpa using h5, rfl, rfl⟩
+        · rename_i h4
+          cases hok
+          exact Or.inr ⟨by simpa using h4, rfl, rfl, rfl, rfl⟩
+
+theorem upgrader_ok {codes : Codes} {c c' : Contract} {au am : List Addr} {nv h : Bytes} {d : List ScVal}
+    {evs : List Event} (hok : upgraderUpgrade codes c au am nv h d = .ok (c', evs)) :
+    c.code.version ≠ nv ∧ ∃ c1, upgrade codes c au h = .ok c1 ∧ migrate c1 am d = .ok (c', evs) ∧
+      c'.code.version = nv := by
+  unfold upgraderUpgrade at hok
+  split at hok
+  · cases hok
+  · rename_i hv
+    split at hok
+    · cases hok
+    · rename_i c1 hu
+      split at hok
+      · cases hok
+      · rename_i c2 evs2 hm
+        split at hok
+        · cases hok
+        · rename_i hv2
+          cases hok
+          exact ⟨hv, c1, hu, hm, Classical.not_not.mp hv2⟩
+
+theorem step_err_unchanged (codes : Codes) (c : Contract) (op : Op) (e : Err) (h : (step codes c op).2 = .err e) :
+    (step codes c op).1 = c := by
+  cases op <;> simp only [step] at h ⊢ <;> split at h <;> first | rfl | cases h
+
+
+theorem transfer_ok {c c' : Contract} {au : List Addr} {n : Addr}
+    (hok : transferOwnership c au n = .ok c') : c.owner ∈ au ∧ c' = { c with owner := n } := by
+  unfold transferOwnership at hok
+  split at hok
+  · cases hok
+  · rename_i h
+    cases hok
+    exact ⟨Classical.not_not.mp h, rfl⟩
+
+theorem upgrade_needs_owner (codes : Codes) (c c' : Contract) (auths : List Addr) (h : Bytes)
+    (hok : upgrade codes c auths h = .ok c') : c.owner ∈ auths := by
+  exact (upgrade_ok hok).1
+
+theorem upgrade_effect (codes : Codes) (c c' : Contract) (auths : List Addr) (h : Bytes)
+    (hok : upgrade codes c auths h = .ok c') :
+    codes h = some c'.code ∧ c'.owner = c.owner ∧ c'.data = c.data ∧
+    (c.code.opensWindow = true → c'.migrating = true) := by
+  obtain ⟨_, code, hc, rfl⟩ := upgrade_ok hok
+  exact ⟨hc, rfl, rfl, fun ho => by simp [ho]⟩
+
+/-- for derived code and well-typed data: migration runs iff the owner authorised it and the window is open -/
+theorem migrate_iff (c : Contract) (auths : List Addr) (d : List ScVal) (hd : IsDerived c.code)
+    (hacc : c.code.accepts d = true) :
+    (∃ r, migrate c auths d = .ok r) ↔ (c.owner ∈ auths ∧ c.migrating = true) := by
+  obtain ⟨h1, h2, h3⟩ := hd
+  constructor
+  · rintro ⟨⟨c', evs⟩, hr⟩
+    obtain ⟨_, ho, hcase⟩ := migrate_ok hr
+    rcases hcase with ⟨_, hm, _, _⟩ | ⟨hu, _⟩
+    · exact ⟨ho, hm⟩
+    · rw [h2] at hu; cases hu
+  · rintro ⟨ho, hm⟩
+    exact ⟨({ c with migrating := false }, [evUpgraded c.code.version]),
+      by simp [migrate, h1, h2, hacc, ho, hm]⟩
+
+/-- it closes the window, announces the (new) version, and changes nothing else -/
+theorem migrate_closes_window (c c' : Contract) (auths : List Addr) (d : List ScVal) (evs : List Event)
+    (hd : IsDerived c.code) (hok : migrate c auths d = .ok (c', evs)) :
+    c'.migrating = false ∧ evs = [evUpgraded c.code.version] ∧ c'.owner = c.owner ∧ c'.data = c.data ∧
+    c'.code.version = c.code.version := by
+  obtain ⟨_, ho, hcase⟩ := migrate_ok hok
+  rcases hcase with ⟨_, hm, rfl, rfl⟩ | ⟨hu, _⟩
+  · exact ⟨rfl, rfl, rfl, rfl, rfl⟩
+  · rw [hd.2.1] at hu; cases hu
+
+theorem migrate_without_window_fails (c : Contract) (auths : List Addr) (d : List ScVal) (hd : IsDerived c.code)
+    (hw : c.migrating = false) : ∃ e, migrate c auths d = .error e := by
+  cases hm : migrate c auths d with
+  | error e => exact ⟨e, rfl⟩
+  | ok r =>
+    obtain ⟨c', evs⟩ := r
+    obtain ⟨_, _, hcase⟩ := migrate_ok hm
+    rcases hcase with ⟨_, hm', _, _⟩ | ⟨hu, _⟩
+    · rw [hw] at hm'; cases hm'
+    · rw [hd.2.1] at hu; cases hu
+
+/-- successful direct migrations / upgrades in a history -/
+def migrations : List Op → List Obs → Nat
+  | (.migrate _ _) :: ops, (.ok _) :: os => migrations ops os + 1
+  | _ :: ops, _ :: os => migrations ops os
+  | _, _ => 0
+def upgrades : List Op → List Obs → Nat
+  | (.upgrade _ _) :: ops, (.ok _) :: os => upgrades ops os + 1
+  | _ :: ops, _ :: os => upgrades ops os
+  | _, _ => 0
+
+/-- derived-ness is preserved by every operation -/
+theorem allDerived_step (codes : Codes) (c : Contract) (op : Op) (h : AllDerived codes c) :
+    AllDerived codes (step codes c op).1 := by
+  obtain ⟨hc, hall⟩ := h
+  refine ⟨?_, hall⟩
+  cases op with
+  | upgrade au hh =>
+    simp only [step]
+    split
+    · rename_i c' hu
+      obtain ⟨_, code, hcode, rfl⟩ := upgrade_ok hu
+      exact hall _ _ hcode
+    · exact hc
+  | migrate au d =>
+    simp only [step]
+    split
+    · rename_i c' evs hm
+      obtain ⟨_, _, hcase⟩ := migrate_ok hm
+      rcases hcase with ⟨_, _, rfl, _⟩ | ⟨_, hcode, _⟩
+      · exact hc
+      · show IsDerived c'.code
+        rw [hcode]; exact hc
+    · exact hc
+  | viaUpgrader au am v hh d =>
+    simp only [step]
+    split
+    · rename_i c' evs hu
+      obtain ⟨_, c1, hu1, hm, _⟩ := upgrader_ok hu
+      obtain ⟨_, code, hcode, rfl⟩ := upgrade_ok hu1
+      obtain ⟨_, _, hcase⟩ := migrate_ok hm
+      rcases hcase with ⟨_, _, rfl, _⟩ | ⟨_, hcode', _⟩
+      · exact hall _ _ hcode
+      · show IsDerived c'.code
+        rw [hcode']; exact hall _ _ hcode
+    · exact hc
+  | transferOwnership au n =>
+    simp only [step]
+    split
+    · rename_i c' ht
+      obtain ⟨_, rfl⟩ := transfer_ok ht
+      exact hc
+    · exact hc
+
+
+def dM : Op → Obs → Nat
+  | .migrate _ _, .ok _ => 1
+  | _, _ => 0
+def dU : Op → Obs → Nat
+  | .upgrade _ _, .ok _ => 1
+  | _, _ => 0
+
+theorem migrations_cons (op : Op) (ops : List Op) (o : Obs) (os : List Obs) :
+    migrations (op :: ops) (o :: os) = migrations ops os + dM op o := by
+  cases op <;> cases o <;> simp [migrations, dM]
+
+theorem upgrades_cons (op : Op) (ops : List Op) (o : Obs) (os : List Obs) :
+    upgrades (op :: ops) (o :: os) = upgrades ops os + dU op o := by
+  cases op <;> cases o <;> simp [upgrades, dU]
+
+theorem run_cons (codes : Codes) (c : Contract) (op : Op) (ops : List Op) :
+    run codes c (op :: ops) = ((run codes (step codes c op).1 ops).1,
+      (step codes c op).2 :: (run codes (step codes c op).1 ops).2) := by
+  simp [run]
+
+theorem upgrader_closes_aux (codes : Codes) (c c' : Contract) (au am : List Addr) (nv h : Bytes) (d : List ScVal)
+    (evs : List Event) (hd : AllDerived codes c) (hok : upgraderUpgrade codes c au am nv h d = .ok (c', evs)) :
+    c'.migrating = false ∧ evs = [evUpgraded nv] := by
+  obtain ⟨hv, c1, hu, hm, hv2⟩ := upgrader_ok hok
+  obtain ⟨hoa, code, hcode, rfl⟩ := upgrade_ok hu
+  have hder : IsDerived code := hd.2 _ _ hcode
+  obtain ⟨h1, h2, h3, h4, h5⟩ := migrate_closes_window _ _ _ _ _ hder hm
+  refine ⟨h1, ?_⟩
+  rw [h2, ← hv2, h5]
+
+theorem step_count (codes : Codes) (c : Contract) (op : Op) (hd : AllDerived codes c) :
+    dM op (step codes c op).2 + (if (step codes c op).1.migrating then 1 else 0)
+      ≤ dU op (step codes c op).2 + (if c.migrating then 1 else 0) := by
+  cases op with
+  | upgrade au hh =>
+    cases hu : upgrade codes c au hh with
+    | error e =>
+      have hs : step codes c (.upgrade au hh) = (c, .err e) := by simp [step, hu]
+      rw [hs]; simp [dM, dU]
+    | ok c' =>
+      have hs : step codes c (.upgrade au hh) = (c', .ok []) := by simp [step, hu]
+      rw [hs]; simp only [dM, dU]
+      split <;> split <;> omega
+  | migrate au d =>
+    cases hm : migrate c au d with
+    | error e =>
+      have hs : step codes c (.migrate au d) = (c, .err e) := by simp [step, hm]
+      rw [hs]; simp [dM, dU]
+    | ok r =>
+      obtain ⟨c', evs⟩ := r
+      have hs : step codes c (.migrate au d) = (c', .ok evs) := by simp [step, hm]
+      rw [hs]
+      obtain ⟨_, _, hcase⟩ := migrate_ok hm
+      rcases hcase with ⟨_, hmig, rfl, _⟩ | ⟨hu, _⟩
+      · simp [dM, dU, hmig]
+      · rw [hd.1.2.1] at hu; cases hu
+  | viaUpgrader au am v hh d =>
+    cases hu : upgraderUpgrade codes c au am v hh d with
+    | error e =>
+      have hs : step codes c (.viaUpgrader au am v hh d) = (c, .err e) := by simp [step, hu]
+      rw [hs]; simp [dM, dU]
+    | ok r =>
+      obtain ⟨c', evs⟩ := r
+      have hs : step codes c (.viaUpgrader au am v hh d) = (c', .ok evs) := by simp [step, hu]
+      rw [hs]
+      obtain ⟨hcl, _⟩ := upgrader_closes_aux codes c c' au am v hh d evs hd hu
+      simp [dM, dU, hcl]
+  | transferOwnership au n =>
+    cases ht : transferOwnership c au n with
+    | error e =>
+      have hs : step codes c (.transferOwnership au n) = (c, .err e) := by simp [step, ht]
+      rw [hs]; simp [dM, dU]
+    | ok c' =>
+      have hs : step codes c (.transferOwnership au n) = (c', .ok []) := by simp [step, ht]
+      rw [hs]
+      obtain ⟨_, rfl⟩ := transfer_ok ht
+      simp [dM, dU]
+
+theorem ndm_gen (codes : Codes) (ops : List Op) : ∀ (c : Contract), AllDerived codes c →
+    migrations ops (run codes c ops).2 + (if (run codes c ops).1.migrating then 1 else 0)
+      ≤ upgrades ops (run codes c ops).2 + (if c.migrating then 1 else 0) := by
+  induction ops with
+  | nil => intro c _; simp only [run, migrations, upgrades]; exact Nat.le_refl _
+  | cons op ops ih =>
+    intro c hd
+    have ih' := ih (step codes c op).1 (allDerived_step codes c op hd)
+    have hs := step_count codes c op hd
+    rw [run_cons]
+    simp only [migrations_cons, upgrades_cons]
+    omega
+
+/-- **one migration per upgrade, over every history**: starting with the window closed, the number of successful
+    migrations (plus one if the window is still open) never exceeds the number of successful upgrades — so a
+    migration can never run twice for one upgrade, nor without a preceding upgrade.  (Upgrades driven through the
+    Upgrader are atomic upgrade+migrate pairs and count on neither side.) -/
+theorem no_double_migrate (codes : Codes) (c : Contract) (ops : List Op) (hd : AllDerived codes c)
+    (hw : c.migrating = false) :
+    migrations ops (run codes c ops).2 + (if (run codes c ops).1.migrating then 1 else 0)
+      ≤ upgrades ops (run codes c ops).2 := by
+  have := ndm_gen codes ops c hd
+  rw [hw] at this
+  simpa using this
+
+/-- the Upgrader either completes both steps and ends at the requested, different version … -/
+theorem upgrader_success (codes : Codes) (c c' : Contract) (au am : List Addr) (nv h : Bytes) (d : List ScVal)
+    (evs : List Event) (hok : upgraderUpgrade codes c au am nv h d = .ok (c', evs)) :
+    c.code.version ≠ nv ∧ c'.code.version = nv ∧ c.owner ∈ au ∧ c.owner ∈ am ∧
+    codes h = some c'.code ∧ c'.owner = c.owner := by
+  obtain ⟨hv, c1, hu, hm, hv2⟩ := upgrader_ok hok
+  obtain ⟨hoa, code, hcode, rfl⟩ := upgrade_ok hu
+  obtain ⟨_, hom, hcase⟩ := migrate_ok hm
+  refine ⟨hv, hv2, hoa, hom, ?_, ?_⟩
+  · rcases hcase with ⟨_, _, rfl, _⟩ | ⟨_, hc, _⟩
+    · exact hcode
+    · rw [hc]; exact hcode
+  · rcases hcase with ⟨_, _, rfl, _⟩ | ⟨_, _, ho, _⟩
+    · rfl
+    · exact ho
+
+/-- … and for derived code it leaves the window closed … -/
+theorem upgrader_success_closes (codes : Codes) (c c' : Contract) (au am : List Addr) (nv h : Bytes) (d : List ScVal)
+    (evs : List Event) (hd : AllDerived codes c) (hok : upgraderUpgrade codes c au am nv h d = .ok (c', evs)) :
+    c'.migrating = false ∧ evs = [evUpgraded nv] := by
+  obtain ⟨hv, c1, hu, hm, hv2⟩ := upgrader_ok hok
+  obtain ⟨hoa, code, hcode, rfl⟩ := upgrade_ok hu
+  have hder : IsDerived code := hd.2 _ _ hcode
+  obtain ⟨h1, h2, h3, h4, h5⟩ := migrate_closes_window _ _ _ _ _ hder hm
+  refine ⟨h1, ?_⟩
+  rw [h2, ← hv2, h5]
+
+/-- … or leaves the target's code, version, data, window and owner exactly as before -/
+theorem upgrader_atomic (codes : Codes) (c : Contract) (au am : List Addr) (nv h : Bytes) (d : List ScVal) :
+    (∃ evs, (step codes c (.viaUpgrader au am nv h d)).2 = .ok evs ∧
+        (step codes c (.viaUpgrader au am nv h d)).1.code.version = nv ∧ c.code.version ≠ nv) ∨
+    ((∃ e, (step codes c (.viaUpgrader au am nv h d)).2 = .err e) ∧ (step codes c (.viaUpgrader au am nv h d)).1 = c) := by
+  simp only [step]
+  cases hu : upgraderUpgrade codes c au am nv h d with
+  | error e => exact Or.inr ⟨⟨e, rfl⟩, rfl⟩
+  | ok r =>
+    obtain ⟨c', evs⟩ := r
+    obtain ⟨hv, _, _, _, hv2⟩ := upgrader_ok hu
+    exact Or.inl ⟨evs, rfl, hv2, hv⟩
+
+/-- requesting the current version, or a version the new code does not report, always fails -/
+theorem upgrader_version_checks (codes : Codes) (c : Contract) (au am : List Addr) (nv h : Bytes) (d : List ScVal) :
+    (c.code.version = nv → ∃ e, upgraderUpgrade codes c au am nv h d = .error e) ∧
+    (∀ code, codes h = some code → code.version ≠ nv → ∃ e, upgraderUpgrade codes c au am nv h d = .error e) := by
+  constructor
+  · intro hv
+    exact ⟨.sameVersion, by simp [upgraderUpgrade, hv]⟩
+  · intro code hcode hne
+    cases hu : upgraderUpgrade codes c au am nv h d with
+    | error e => exact ⟨e, rfl⟩
+    | ok r =>
+      obtain ⟨c', evs⟩ := r
+      obtain ⟨_, hv2, _, _, hcode', _⟩ := upgrader_success codes c c' au am nv h d evs hu
+      rw [hcode] at hcode'
+      obtain rfl := Option.some.inj hcode'
+      exact absurd hv2 hne
+
 theorem rejected_unchanged (codes : Codes) (c : Contract) (op : Op) (e : Err) (h : (step codes c op).2 = .err e) :
     (step codes c op).1 = c := by
-  cases op <;> simp only [step] at h ⊢ <;> split <;> simp_all
+  exact step_err_unchanged codes c op e h
+
+/-- code, window and owner change only through calls the CURRENT owner authorised -/
+theorem changes_need_owner (codes : Codes) (c : Contract) (op : Op) (h : (step codes c op).1 ≠ c) :
+    c.owner ∈ (match op with
+      | .upgrade au _ => au
+      | .migrate au _ => au
+      | .viaUpgrader au _ _ _ _ => au
+      | .transferOwnership au _ => au) := by
+  cases op with
+  | upgrade au hh =>
+    simp only [step] at h
+    split at h
+    · rename_i c' hu; exact (upgrade_ok hu).1
+    · exact absurd rfl h
+  | migrate au d =>
+    simp only [step] at h
+    split at h
+    · rename_i c' evs hm; exact (migrate_ok hm).2.1
+    · exact absurd rfl h
+  | viaUpgrader au am v hh d =>
+    simp only [step] at h
+    split at h
+    · rename_i c' evs hu
+      obtain ⟨_, c1, hu1, _, _⟩ := upgrader_ok hu
+      exact (upgrade_ok hu1).1
+    · exact absurd rfl h
+  | transferOwnership au n =>
+    simp only [step] at h
+    split at h
+    · rename_i c' ht; exact (transfer_ok ht).1
+    · exact absurd rfl h
 
 end Cgp.Props.C15
